@@ -81,6 +81,8 @@ func policyOpt(p string, node bool) []el.Option {
 		pol = el.AllowOverwrite
 	case "deny":
 		pol = el.DenyOverwrite
+	case "empty":
+		pol = el.RegistrationPolicy("") // an explicitly given empty policy is an invalid value, not "the default"
 	default:
 		pol = el.RegistrationPolicy(p)
 	}
@@ -275,6 +277,12 @@ func (sc *Scenario) MatchChains(o *Obs, allowPartial bool) ([]End, string) {
 				} else {
 					p := invs[prev]
 					if invs[i].In != p.Out || invs[i].CallSeq < p.RetSeq {
+						continue
+					}
+					if invs[i].InFP != p.OutFP {
+						if firstErr == "" {
+							firstErr = fmt.Sprintf("node %s of pipeline %s received the event object its predecessor %s returned, but not as it was returned: returned {%s}, received {%s}", invs[i].Node, ch.Pipe, p.Node, p.OutFP, invs[i].InFP)
+						}
 						continue
 					}
 				}
